@@ -629,7 +629,7 @@ class FitBase(FileIOMixin, object):
 
         :rtype: numpy.ndarray[float]
         """
-        if self._loaded_result_dict is not None:
+        if self._loaded_result_dict is not None and self._loaded_result_dict["parameter_errors"] is not None:
             return self._loaded_result_dict["parameter_errors"]
         return self._fitter.fit_parameter_errors
 
@@ -645,7 +645,7 @@ class FitBase(FileIOMixin, object):
 
         :rtype: None or numpy.ndarray[numpy.ndarray[float]]
         """
-        if self._loaded_result_dict is not None:
+        if self._loaded_result_dict is not None and self._loaded_result_dict["parameter_cov_mat"] is not None:
             return self._loaded_result_dict["parameter_cov_mat"]
         return self._fitter.fit_parameter_cov_mat
 
@@ -655,7 +655,7 @@ class FitBase(FileIOMixin, object):
 
         :rtype: None or numpy.ndarray[numpy.ndarray[float]]
         """
-        if self._loaded_result_dict is not None:
+        if self._loaded_result_dict is not None and self._loaded_result_dict["parameter_cor_mat"] is not None:
             return self._loaded_result_dict["parameter_cor_mat"]
         return self._fitter.fit_parameter_cor_mat
 
